@@ -4,21 +4,12 @@ head formula — the arguments of its atoms, the prefix of an n-fold next — in
 (constants are folded), tuples become term tuples, other theory functions become functions, names of temporal operators
 and list / set sequences are rejected.
 -/
+import TelModel.HTerm
 import TelModel.Parser
 import TelModel.Generated.Tables
 
 namespace TelModel
 open Generated
-
-/-- a parsed theory term as far as the conversion looks at it -/
-inductive HTerm where
-  | num (n : Int)                       -- SymbolicTerm with a number
-  | var (x : String)                    -- Variable
-  | sym (s : String)                    -- any other SymbolicTerm (constant, string, #inf, #sup), kept as text
-  | fn (name : String) (args : List HTerm)   -- TheoryFunction
-  | tuple (args : List HTerm)           -- TheorySequence of type Tuple
-  | seq (args : List HTerm)             -- TheorySequence of type List or Set
-  deriving Repr, Inhabited
 
 /-- a plain term -/
 inductive PTerm where
